@@ -176,7 +176,7 @@ func checkC16(r *Run) {
 	}
 	// (server side; the client's multiplexer is C10's subject)
 	for _, b := range db.Blocking {
-		if b.Callee == "go" || b.St.Dead || isClientSide(b.Root) {
+		if b.Callee == "go" || b.St.Dead || isClientSide(b.Root) || b.NonBlocking {
 			continue
 		}
 		own := ""
@@ -345,11 +345,13 @@ func c16ChildMuReentry(r *Run, m *ServerModel, eff map[*types.Func]*Effects) {
 	type rev struct{ reason string }
 	n := 0
 	seen := map[string]bool{}
-	for fi, sites := range db.ByFunc {
+	for fi, direct := range db.ByFunc {
 		if isClientSide(fi) {
 			continue
 		}
 		res := m.resolver(fi)
+		// calls a wrapper makes to a declared function handed to it as callback count as well
+		sites := append(append([]*Site{}, direct...), db.Virtual[fi]...)
 		for _, s := range sites {
 			if s.Call == nil || s.St.Dead {
 				continue
